@@ -243,6 +243,19 @@ func runWorker(db *sod.DB, e *Env, w int, ops []COp, known []string, base map[st
 					ev.IDs = append(ev.IDs, a.UUID())
 				}
 			})
+		case "flushOne":
+			// Flush writes the object it is given: use a stored one (programs of this class never delete)
+			ev.ID = pickID(op.Ref)
+			if b, ok := base[ev.ID]; ok {
+				o := cloneDoc(b)
+				call(func() {
+					err := db.Flush(o)
+					ev.Class = classify(err)
+					if err != nil {
+						ev.Val = err.Error() // judged after the workers have joined
+					}
+				})
+			}
 		case "deleteAll":
 			call(func() { ev.Class = classify(db.DeleteAll(&Doc{})) })
 		case "flushAll":
